@@ -67,6 +67,8 @@ BASES = {
     # name: (var list, dims AxB, dims BxA, weights, nums, numeric, quickN, thoroughN)
     "cat3_x_cat2": ([A3, B2], [("cat", 0), ("cat", 1)], [("cat", 1), ("cat", 0)], (1, 2), (None,), None, 2, 3),
     "cat3_x_cat2_num": ([A3, B2], [("cat", 0), ("cat", 1)], [("cat", 1), ("cat", 0)], (1,), (None, 1, 3), NUM, 1, 2),
+    "cat3_x_cat2_sumna": ([A3, B2], [("cat", 0), ("cat", 1)], [("cat", 1), ("cat", 0)], (1,), (None, 1, 3),
+                          {"measures": ["sum"], "valid_counts": True, "sum_empty": "na"}, 2, 2),
     "date3_x_cat2": ([D3, B2], [("cat", 0), ("cat", 1)], [("cat", 1), ("cat", 0)], (1,), (None,), None, 2, 2),
     "cat3_x_mr2": ([A3, M2], [("cat", 0), ("mr", 1)], [("mr", 1), ("cat", 0)], (1, 2), (None,), None, 1, 2),
     "mr2_x_mr3": ([M2, N3], [("mr", 0), ("mr", 1)], [("mr", 1), ("mr", 0)], (1,), (None,), None, 1, 2),
